@@ -212,6 +212,7 @@ class L21Norm(Functional):
                supported.
         """
         self.l2_axis = l2_axis
+        super().__init__()
 
     @staticmethod
     def _l2norm(
@@ -282,6 +283,7 @@ class L1MinusL2Norm(Functional):
             beta: Parameter :math:`\beta` in the norm definition.
         """
         self.beta = beta
+        super().__init__()
 
     def __call__(self, x: Union[Array, BlockArray]) -> float:
         return snp.sum(snp.abs(x)) - self.beta * norm(x)
